@@ -219,3 +219,63 @@ Definition wire_model_run (seq : bool) (h : list wobs) : wacc :=
 
 Definition C06_wire_agree (seq : bool) (tolerated : nat) (h : list wobs) : bool :=
   let a := wire_model_run seq h in wa_ok a && Nat.leb (wa_drops a) tolerated.
+
+(* ==== kind lsn.noreply: an exchange for which the listener sends no reply ====
+   Request A is accepted by the listener but cannot be answered (its SCION path cannot be reversed);
+   request B of the same client then claims to continue A in interleaved mode.  Observed: whether a
+   datagram came back for A, the (receive, transmit) pairs the store holds for the client after A and
+   after B, B's request and reply.  From the property text: an interleaved reply is given only when an
+   EARLIER REPLY to the same client carried the stamp named as origin - A had no reply, so
+   - after A nothing is on record for the client (an exchange without a reply is not on record);
+   - B is answered in basic mode;
+   - after B the client's record holds B's exchange and nothing else. *)
+Definition C06_noreply_ok (gotA : bool) (entsA : list (Z * Z)) (q : request) (gotB : bool)
+  (org rx tx : Z) (entsB : list (Z * Z)) : bool :=
+  if gotA then true   (* A was answered after all: the clauses above do not apply *)
+  else
+    match entsA with [] => true | _ :: _ => false end &&
+    if gotB then
+      lsn_step_ok [] {| l_cl := 0; l_q := q; l_org := org; l_rx := rx; l_tx := tx |} &&
+      forallb (fun e => fst e =? rx) entsB
+    else match entsB with [] => true | _ :: _ => false end.
+
+(* the model of the listener for these two requests: A is handled and, no reply going out, its
+   transmit time is reported unchanged (updateTXTimestamp with the time handleRequest set), B is
+   handled with the observed receive / reference stamp as receive time / clock reading.  Returns B's
+   reply and the record of the client after B (receive stamp, software transmit stamp). *)
+Definition noreply_model (zA : Z) (q : request) (rx ref : Z) : option (reply * list (Z * Z)) :=
+  let rB := ns_of_64 rx in
+  let rA := rB - 1000000 in
+  match handle real_config tss_empty 0 {| q_org := 0; q_rx := 0; q_tx := zA |} rA (rA + 1000) 0 with
+  | None => None
+  | Some outA =>
+      let s1 := t_state (update_tx (o_state outA) 0 (o_rxt outA) (o_txt outA)) in
+      match handle real_config s1 0 q rB (ns_of_64 ref) 0 with
+      | None => None
+      | Some outB =>
+          Some (o_reply outB,
+                match find_item 0 (items (o_state outB)) with
+                | Some it => map (fun e => (e_rx e, e_tx e)) (it_ents it)
+                | None => []
+                end)
+      end
+  end.
+
+(* the record after B: the model's exchanges with the kernel transmit stamp (not earlier than the
+   software one) in place of the software transmit stamp *)
+Fixpoint ents_agree (m o : list (Z * Z)) : bool :=
+  match m, o with
+  | [], [] => true
+  | (mr, mt) :: m', (r, t) :: o' => (mr =? r) && (mt <=? t) && ents_agree m' o'
+  | _, _ => false
+  end.
+
+Definition C06_noreply_agree (zA : Z) (gotA : bool) (entsA : list (Z * Z)) (q : request) (gotB : bool)
+  (org rx tx ref : Z) (entsB : list (Z * Z)) : bool :=
+  negb gotA && gotB && match entsA with [] => true | _ :: _ => false end &&
+  match noreply_model zA q rx ref with
+  | Some (r, ents) =>
+      (r_org r =? org) && (r_rx r =? rx) && (r_tx r =? tx) && (r_ref r =? ref) && negb (r_inter r) &&
+      (to64 (ns_of_64 rx) =? rx) && (to64 (ns_of_64 ref) =? ref) && ents_agree ents entsB
+  | None => false
+  end.
